@@ -407,6 +407,16 @@ func (fi *FuncInfo) valueAt(addr ssa.Value, key string, at ssa.Instruction, self
 			case *ssa.Store:
 				if dominatesInstr(fi, x, u) && fi.addrKey(x.Addr) == key {
 					cands = append(cands, cand{x, x.Val})
+				} else if fa, isF := addr.(*ssa.FieldAddr); isF && x.Addr == fa.X && dominatesInstr(fi, x, u) {
+					// whole-object store `*obj = *lit` (a composite literal built in a temporary):
+					// the field's value is what the literal's field held at that point
+					if ld, isLd := x.Val.(*ssa.UnOp); isLd && ld.Op == token.MUL {
+						if src, isAl := ld.X.(*ssa.Alloc); isAl {
+							if v := fi.FieldValueAt(src, fa.Field, x); v != nil {
+								cands = append(cands, cand{x, v})
+							}
+						}
+					}
 				}
 			}
 		}
